@@ -390,6 +390,11 @@ def run_all(descs, post=None, deadline=8):
                 asyncio.get_event_loop().close()
             except BaseException:
                 pass
-        except Exception as e:   # the harness itself could not drive the endpoint through this scenario
-            crashed.append({'what': 'scenario-crashed', 'scenario': d, 'detail': repr(e)[:300]})
+        except Exception as e:   # the scenario could not be driven to its end
+            if common.raised_in_harness(e):
+                # the harness's own code failed (a private field it hooks is gone, a table it reads could not be
+                # regenerated): not behaviour of the library, and not a failing input
+                common.harness_error('scenario driver: %r' % (e,))
+            else:
+                crashed.append({'what': 'scenario-crashed', 'scenario': d, 'detail': repr(e)[:300]})
     return runs, crashed
